@@ -22,7 +22,10 @@ type propDef struct {
 var props = map[string]*propDef{}
 
 func register(id string, patterns []string, run func(r *R)) {
-	props[id] = &propDef{id, patterns, run}
+	props[id] = &propDef{id, patterns, func(r *R) {
+		run(r)
+		hygiene(r)
+	}}
 }
 
 func main() {
